@@ -84,6 +84,36 @@ def _gather_operand_kind(repo, f, fv, g) -> str:
     return "other"
 
 
+def _parallel_lists(fv, a: str, b: str) -> bool:
+    """Two local lists that grow only together: each `a.append(..)` stands next to a `b.append(..)` under the same conditions in
+    the same loop, both start empty, nothing else changes either - so they have the same length and order."""
+    def appends(name):
+        return [c for c in fv.calls("append") if unparse(c.func.value) == name]
+    def other(name):
+        return [c for c in fv.calls(["extend", "insert", "pop", "remove", "clear", "sort", "reverse"]) if isinstance(c.func, ast.Attribute) and unparse(c.func.value) == name]
+    def inits(name):
+        return [n for n in walk_no_nested(fv.node) if isinstance(n, (ast.Assign, ast.AugAssign)) and any(unparse(t) == name for t in (n.targets if isinstance(n, ast.Assign) else [n.target]))]
+    aa, bb = appends(a), appends(b)
+    if not aa or len(aa) != len(bb) or other(a) or other(b):
+        return False
+    ia, ib = inits(a), inits(b)
+    if len(ia) != 1 or len(ib) != 1 or unparse(getattr(ia[0], "value", None)) not in ("[]", "list()") or unparse(getattr(ib[0], "value", None)) not in ("[]", "list()"):
+        return False
+    for x, y in zip(aa, bb):
+        sx, sy = fv.stmt_of(x), fv.stmt_of(y)
+        px, py = fv.parent(sx), fv.parent(sy)
+        if px is not py or set(fv.conditions(x)) != set(fv.conditions(y)):
+            return False
+        body = None
+        for fld in ("body", "orelse", "finalbody"):
+            blk = getattr(px, fld, None)
+            if isinstance(blk, list) and sx in blk and sy in blk:
+                body = blk
+        if body is None or abs(body.index(sx) - body.index(sy)) != 1:
+            return False
+    return True
+
+
 def _positional_merge(f, fv, g):
     st = fv.stmt_of(g)
     if isinstance(st, ast.Return):
@@ -117,6 +147,8 @@ def _positional_merge(f, fv, g):
             base = container.replace(".values()", "").replace(".items()", "").replace("enumerate(", "").rstrip(")")
             if others and others[0] == base:
                 how.append(f"zip({others[0]}, {res})")
+            elif others and _parallel_lists(fv, others[0], base):
+                how.append(f"zip({others[0]}, {res}) - `{others[0]}` is filled in step with `{base}`")
             else:
                 return False, f"zipped with `{others}` but built from `{container}`"
         elif isinstance(up, ast.Call) and callee_last(up) in ("extract_exceptions_from_results",):
